@@ -30,7 +30,7 @@ LEVEL_NOTE = ("the tie is differential (extracted model vs. implementation on ge
               "neighbors is modelled as V-order x V-order, the theorems hold for every order; n=5 completeness only through the "
               "extracted oracle in the thorough tier; coverage of all_dags n is proved (every wf DAG on 0..n-1 has its canonical listing in it); NOT proved: that "
               "pattern_of / meek_model / essential_graph return set-equal results on set-equal edge lists, so the lifted theorem "
-              "speaks about the canonical listing of the DAG; n=5 in the kernel would cost about 70 CPU-min (skipped); "
+              "speaks about the canonical listing of the DAG; n=5 in the kernel not attempted (extrapolated from the 8 s of n=4 to over an hour of CPU, above the budget); "
               "essential_graph / is_ext are boolean oracles (acyclicb proved sound for "
               "Spec.acyclic, the rest of the reflection is not proved)")
 TECHNIQUE = "Coq proof (invariants, unbounded; completeness bounded n<=4 by vm_compute) + extracted-model correspondence"
